@@ -47,6 +47,33 @@ def same_tree(src, got, path='root'):
     return out
 
 
+def long_chains(R, lang, rng, path, to_string, auto_of, read_auto):
+    """a 250-word sentence (the parser's default max_length) whose derivation is one chain: written, read back and printed
+    again under the interpreter's default recursion limit"""
+    from depccg.tree import ScoredTree
+    token_fn = (lambda r: treegen.en_token(r, 'auto', 'auto')) if lang == 'en' else (lambda r: treegen.ja_token(r, 'auto'))
+    for shape in ('right', 'left'):
+        n = rng.choice((250, 249, 200))
+        t = treegen.chain_tree(rng, lang, token_fn, n, shape)
+        R.case(('long-chain', lang, shape, n), True)
+        wit = {'lang': lang, 'words': n, 'shape': shape}
+        try:
+            with treegen.default_recursion_limit():
+                text = to_string([[ScoredTree(t, -1.0)]], format='auto')
+                with open(path, 'w', encoding='utf-8') as f:
+                    f.write(text)
+                got = list(read_auto(path))
+                again = auto_of(got[0].tree) if len(got) == 1 else None
+        except Exception as e:
+            R.violation('read_auto:raises', f'writing/reading the {n}-word {shape}-branching derivation raised {e!r} '
+                        f'(default recursion limit)', wit)
+            continue
+        R.count('read_auto:long-chains')
+        line = [l for l in text.split('\n') if l and not l.startswith('ID=')]
+        if again is None or len(line) != 1 or again != line[0]:
+            R.violation('read_auto:reprint', f'{n}-word chain: the line read back does not print to the same line', wit)
+
+
 def run(spec, R):
     lang = spec['lang']
     env.install(lang)
@@ -58,6 +85,7 @@ def run(spec, R):
     tmp = tempfile.mkdtemp(prefix='verif-c08-')
     path = os.path.join(tmp, 'x.auto')
     try:
+        long_chains(R, lang, rng, path, to_string, auto_of, read_auto)
         for i in range(spec['cases']):
             batch = treegen.make_batch(rng, lang, 'auto', max_sentences=3, max_nbest=2, licensed_share=0.5,
                                        attr_domain='auto')
